@@ -129,6 +129,51 @@ TARGETS = {
 }
 
 
+# the anchor files of every property (properties.jsonl): every function and the module skeleton of each of them is
+# part of that property's tie - a change to the code a property is anchored in always breaks an obligation of that
+# property (paths outside optimum/quanto are written "@<path from the repository root>")
+ANCHORS = {}
+try:
+    import json as _json
+
+    for _l in open(os.path.join(os.path.dirname(os.path.dirname(os.path.abspath(__file__))), "properties.jsonl")):
+        _p = _json.loads(_l)
+        ANCHORS[_p["id"]] = [f for f in _p.get("anchors", {}).get("files", []) if f.endswith(".py")]
+except OSError:
+    pass
+
+
+def _functions(tree):
+    res = []
+
+    def walk(node, prefix):
+        for ch in ast.iter_child_nodes(node):
+            if isinstance(ch, (ast.FunctionDef, ast.AsyncFunctionDef)):
+                res.append(prefix + ch.name)
+                walk(ch, prefix + ch.name + ".")
+            elif isinstance(ch, ast.ClassDef):
+                walk(ch, prefix + ch.name + ".")
+
+    walk(tree, "")
+    return res
+
+
+def targets(repo, pid):
+    """static targets + every function and the skeleton of every anchor file of the property (current source)"""
+    out = list(TARGETS.get(pid, []))
+    for f in ANCHORS.get(pid, []):
+        rel = f[len(Q):] if f.startswith(Q) else "@" + f
+        try:
+            tree = ast.parse(open(os.path.join(repo, f)).read())
+            quals = ["<module>"] + [q for q in _functions(tree) if not q.endswith("__repr__") and not q.endswith(".numpy")]
+        except (OSError, SyntaxError):
+            quals = ["<module>"]
+        for q in quals:
+            if (rel, q) not in out:
+                out.append((rel, q))
+    return out
+
+
 def fingerprint(node):
     return hashlib.sha256(ast.dump(node, annotate_fields=True, include_attributes=False).encode()).hexdigest()[:16]
 
@@ -167,8 +212,8 @@ def skeleton_print(tree):
 def prints(repo, pid):
     out = []
     cache = {}
-    for rel, qual in TARGETS.get(pid, []):
-        path = os.path.join(repo, Q + rel)
+    for rel, qual in targets(repo, pid):
+        path = os.path.join(repo, rel[1:]) if rel.startswith("@") else os.path.join(repo, Q + rel)
         key = f"{rel}::{qual}"
         if rel not in cache:
             try:
@@ -200,14 +245,16 @@ def generate(repo, out_path, pid):
 
 
 def lemma_name(key):
-    return "tie_glue_" + "".join(c if c.isalnum() else "_" for c in key.replace("<module>", "module").replace(".py", ""))
+    return "tie_glue_" + "".join(c if c.isalnum() else "_" for c in key.replace("<module>", "module").replace(".py", "").replace("@", "ext_"))
 
 
-def tie_text(pid):
+def tie_text(pid, repo="/repo"):
     hdr = ("From Coq Require Import String List.\nFrom QV Require Import Model.GlueFacts.\nFrom QD Require Import GenGlue.\n"
            "Import ListNotations.\nOpen Scope string_scope.\n")
     t = hdr
-    for i, (rel, qual) in enumerate(TARGETS.get(pid, [])):
+    tg = targets(repo, pid)
+    t += f"Lemma tie_glue_count : length src_glue = length glue_{pid}.\nProof. reflexivity. Qed.\n"
+    for i, (rel, qual) in enumerate(tg):
         key = f"{rel}::{qual}"
         t += (f'Lemma {lemma_name(key)} : nth {i} src_glue ("", "") = nth {i} glue_{pid} ("", "").\n'
               "Proof. reflexivity. Qed.\n")
